@@ -664,6 +664,42 @@ type env struct {
 	// present: the walk's construction (Isolation.tla InitKinds): "present" = initial value / records / positions are
 	// configured, "absent" = the object is constructed holding nothing (or only what its package defaults give it)
 	present bool
+	// held, pick: the walk asks this step's plain write to use, as the written message, the pick-th message the caller
+	// holds from an earlier read, result or event (Isolation.tla WriteFrom / WriteOther) instead of a fresh one
+	held     bool
+	heldPick int
+}
+
+// heldOf returns a live handed-out message of the given type, or nil.
+func (t *tracker) heldOf(md protoreflect.MessageDescriptor, pick int) proto.Message {
+	t.mu.Lock()
+	defer t.mu.Unlock()
+	var c []proto.Message
+	for _, h := range t.live {
+		if !h.scribbled && h.m.ProtoReflect().Descriptor() == md {
+			c = append(c, h.m)
+		}
+	}
+	if len(c) == 0 {
+		return nil
+	}
+	return c[pick%len(c)]
+}
+
+// written gives the message a plain write hands in: a fresh one built by mk (registered as the caller's, to be
+// scribbled on later), or - when the walk says "held" and there is one - a message the caller got from the library
+// earlier.  A held message is not the caller's to change: it is neither registered as "in" nor scribbled on, and it
+// is only ever used with writes that are documented not to edit their argument (no InterceptBefore, no id callback).
+func written[T proto.Message](e *env, mk func(e *env) T) (m T, isHeld bool) {
+	if e.held {
+		var z T
+		if h := e.t.heldOf(z.ProtoReflect().Descriptor(), e.heldPick); h != nil {
+			return h.(T), true
+		}
+	}
+	m = mk(e)
+	e.in(m)
+	return m, false
 }
 
 // initialIDs: the ids of the initial records of a collection-like object.
